@@ -57,6 +57,10 @@ CHECKS = {
    text="Seeded exploration: 1-4 scanning sources each sending one or two bursts of 1-150 TCP SYN / UDP / ICMP probes with repeated ports, interleaved by the choice tape as frames into the simulated NIC; the fake clock drives the detector's 5 s timer (re-armed by every knock, so other sources starve it) and then runs ten simulated minutes. Oracle over all port-scan events: per source the union of listed ports equals the set probed, no pair is listed twice in an event or more often than the number of bursts containing it, a single burst is reported exactly once, sources are reported separately with the sensor as destination, nothing is reported again without new probes.",
    ref="§3 C20", tech=RAW + "set/exactly-once oracle over the recorded port-scan event history on the fake clock",
    note="Bursts are derived from the probes' actual simulated times (gap < 4.5 s same burst, > 11 s new burst, between: counts not judged); mixed-protocol bursts may yield one event or one per protocol family."),
+ "C12": dict(
+   text="Seeded exploration of generated credential sets and attempt sequences (up to 4 per connection, gated-operation probe before and after each) against ssh-simulator (real x/crypto/ssh client inside the bubble, retrying passwords on one connection), ldap (simple binds with several DN spellings; add/modify/delete/modify-dn/compare probes) and ftp (USER/PASS; file and directory commands), with a second connection to the same service instance interleaved by the choice tape. Reference model: success iff the pair (or the wildcard) is in the set, independent of history and of the other connection; exactly one authentication event per attempt carrying the presented password and the user as evaluated; gated operations refused until a success on this very connection.",
+   ref="§3 C12", tech=TECH + "reference-model oracle over protocol replies and authentication events; interleaved second connection",
+   note="Schedule dimension is thin (the second connection); LDAP anonymous bind result code is not judged; FTP has a fixed credential table."),
 }
 NA = {
  "C17": "pure functions of a byte buffer (decoder methods, ipp decode/encode): no schedule, clock, fault or interleaving to simulate (DESIGN §4)",
